@@ -138,6 +138,8 @@ def ev(e, env, opaque):
             a, b = ev(e.body, env, opaque), ev(e.orelse, env, opaque)
             return a if (a is not TOP and b is not TOP and a == b) else TOP
         return ev(e.body, env, opaque) if t else ev(e.orelse, env, opaque)
+    if isinstance(e, ast.Call) and _key(e) in opaque:
+        return opaque[_key(e)]
     if isinstance(e, ast.Call) and isinstance(e.func, ast.Name) and not e.keywords:
         args = [ev(a, env, opaque) for a in e.args]
         if any(a is TOP for a in args):
